@@ -401,6 +401,18 @@ def check(tier):
         e3.pmap(_create, [(t, wd) for t in texts], rep, chunksize=4)
     with e3.Scratch("c15i") as wd:
         e3.pmap(_inject_cli, [(repr(t), wd) for t in texts if "\x00" not in t] + [("1+1", wd), ("print('é\\t')", wd)], rep, chunksize=4)
+    for chan in ("cli_create_runs", "cli_inject_text_runs"):
+        pass
+    # the CLI creation / injection channels must accept ordinary text (a helper that refuses everything delivers nothing)
+    with e3.Scratch("c15v") as wd:
+        probe = _create(("1+1", wd))
+        if probe.stats.get("delivered_equal", 0) != 1 and not probe.viol:
+            rep.violate("C15|cli-create|plain-ascii-refused", "fickling --create '1+1' did not produce a loadable pickle delivering '1+1'",
+                        {"engine": "E3", "helper": "cli --create", "text": "1+1"}, 1)
+        probe = _inject_cli(("1+1", wd))
+        if probe.stats.get("delivered_equal", 0) < 1 and not probe.viol:
+            rep.violate("C15|cli-inject|plain-ascii-refused", "fickling --inject '1+1' did not produce a pickle delivering '1+1'",
+                        {"engine": "E3", "helper": "cli --inject", "text": "1+1"}, 1)
     cases = encoder_cases()
     missing = sorted(set(fk.OPCODES_BY_NAME) - set(cases))
     if missing:
